@@ -122,6 +122,7 @@ var corpus = []string{
 	"SELECT t.a, u.x FROM t.csv t JOIN u.csv u ON u.x <> 0 WHERE 10 / u.x > 1",
 	"SELECT t.b, u.y FROM t.csv t LOOKUP JOIN u.csv u ON t.a = u.x WHERE u.y > 1 AND t.b < 5",
 	"SELECT u.y FROM u.csv u WHERE u.x > 0",
+	"WITH ww AS (SELECT * FROM max_diff_watermark(source=>TABLE(ev.csv), max_diff=>INTERVAL 1 SECOND, time_field=>DESCRIPTOR(ts)) c), wt AS (SELECT * FROM tumble(source=>TABLE(ww), window_length=>INTERVAL 1 MINUTE) c) SELECT window_end, COUNT(*) AS c, SUM(val) AS s FROM wt GROUP BY window_end",
 }
 
 type job struct {
@@ -181,7 +182,7 @@ func runCases(f lib.Flags) error {
 	cwd, _ := os.Getwd()
 	defer os.Chdir(cwd)
 
-	nq := f.Cases(100, 1000)
+	nq := f.Cases(85, 850)
 	var jobs []*job
 	for qi := 0; qi < nq; qi++ {
 		r := rng.Fork()
@@ -324,11 +325,6 @@ func runCases(f lib.Flags) error {
 	for _, j := range jobs {
 		cf.Count("cli_compared")
 		class := ""
-		if j.keyFired && j.db.hasNulls {
-			class = "join-key-null"
-			cf.SetClass(j.idx, class)
-			cf.Count("class_join-key-null")
-		}
 		if j.feat["agg_over_outer_join"] {
 			// SUM/MAX over a column an outer join may pad with NULL fails at run time (type assertion); when the
 			// optimizer prunes that aggregate as unused only the unoptimized query fails (findings/C04.txt)
